@@ -194,7 +194,7 @@ func (l *c13Lexer) check(v c13LexVec, r Result) {
 		"expected_error": v.Err, "open_after_prefix": v.Open, "got_tokens": c13ShowToks(r.Toks), "got_error": r.LexErr, "got_class": r.Class, "got_msg": r.ErrMsg}
 	if len(v.Dev) == 1 && c.OpenDev(c13Dev) && c13LexAgrees(r, v.Dev[0].Toks, v.Dev[0].Err, false) {
 		c.Case(key, nontrivial)
-		c.Known(c13Dev, fmt.Sprintf("a numeric literal absorbs an adjacent '-' (and any further '.'): text %q is lexed as %s, expected %s",
+		c13Wit.add(c13Dev, string(text), fmt.Sprintf("a numeric literal absorbs an adjacent '-' (and any further '.'): text %q is lexed as %s, expected %s",
 			string(text), c13ShowToks(r.Toks), c13ShowModel(v.Toks)))
 		return
 	}
@@ -557,12 +557,12 @@ func checkC13(c *Ctx) {
 			rep := map[string]any{"name": p.Name, "mode": v.Mode, "original": p.Prog, "variant": string(j.Prog), "variant_bytes": j.Prog, "inputs": p.Files,
 				"original_obs": c13Obs(base[i]), "variant_obs": c13Obs(r), "original_msg": base[i].ErrMsg, "variant_msg": r.ErrMsg, "variant_detail": r.Detail}
 			if v.Minus && c.OpenDev(c13Dev) {
-				c.Known(c13Dev, fmt.Sprintf("program %s behaves differently when a number is written directly against '-': %q gives %s (%s), the original %s",
+				c13Wit.add(c13Dev, "~"+string(j.Prog), fmt.Sprintf("program %s behaves differently when a number is written directly against '-': %q gives %s (%s), the original %s",
 					p.Name, c13Excerpt(j.Prog), r.Class, r.ErrMsg, base[i].Class))
 				return
 			}
 			if v.PSemi && c.OpenDev(c13DevPrint) {
-				c.Known(c13DevPrint, fmt.Sprintf("program %s: a bare print followed by ';' instead of a newline is rejected (%s: %s); variant %q",
+				c13Wit.add(c13DevPrint, string(j.Prog), fmt.Sprintf("program %s: a bare print followed by ';' instead of a newline is rejected (%s: %s); variant %q",
 					p.Name, r.Class, r.ErrMsg, c13ExcerptAt(j.Prog, "print;")))
 				return
 			}
@@ -634,6 +634,7 @@ func checkC13(c *Ctx) {
 	}
 
 	phase("layouts_random")
+	c13Wit.flush(c)
 	c.Set("phase_wall_s", phases)
 	c.Set("exhaustive", true)
 	c.Set("rule", "token level: every text up to MaxLen over {a 1 - . + = SP LF \" '} and {a # \" ' LF SP 1 ;}, every ordered pair (thorough: triple) of universe tokens x gap kind x quote; "+
@@ -657,6 +658,35 @@ func checkC13(c *Ctx) {
 }
 
 var c13Panic any
+
+// c13Witness keeps, per deviation, the smallest witness seen (so that the
+// KNOWN-FINDING line does not depend on the order in which workers answer).
+type c13Witness struct {
+	mu   sync.Mutex
+	best map[string][2]string // dev -> (key, message)
+}
+
+func (w *c13Witness) add(dev, key, msg string) {
+	w.mu.Lock()
+	defer w.mu.Unlock()
+	if w.best == nil {
+		w.best = map[string][2]string{}
+	}
+	cur, ok := w.best[dev]
+	if !ok || len(key) < len(cur[0]) || (len(key) == len(cur[0]) && key < cur[0]) {
+		w.best[dev] = [2]string{key, msg}
+	}
+}
+
+func (w *c13Witness) flush(c *Ctx) {
+	w.mu.Lock()
+	defer w.mu.Unlock()
+	for dev, b := range w.best {
+		c.Known(dev, b[1])
+	}
+}
+
+var c13Wit c13Witness
 
 func c13ExcerptAt(b []byte, what string) string {
 	i := bytes.Index(b, []byte(what))
